@@ -74,6 +74,7 @@ fn exec(st: &mut St, f: &[&str], op: &str) -> Ret {
             else { let (o, l) = (n(2), n(3)); let sub: &[u8] = if l == 0 { &b""[..] } else { unsafe { std::slice::from_raw_parts(b.as_ptr().add(o), l) } }; let c = b.slice_ref(sub); Ret::New(H::B(c)) } }
         "bsplitoff" => { let c = st.b(n(1)).split_off(n(2)); Ret::New(H::B(c)) }
         "bsplitto" => { let c = st.b(n(1)).split_to(n(2)); Ret::New(H::B(c)) }
+        "bctb" => { let c = bytes::Buf::copy_to_bytes(st.b(n(1)), n(2)); Ret::New(H::B(c)) }   // Buf::copy_to_bytes of a Bytes: documented as split_to
         "btrunc" => { st.b(n(1)).truncate(n(2)); Ret::Unit }
         "bclear" => { st.b(n(1)).clear(); Ret::Unit }
         "badv" => { st.b(n(1)).advance(n(2)); Ret::Unit }
@@ -160,7 +161,7 @@ fn gen_op(rng: &mut Rng, st: &St, last_split: &mut Option<(usize, usize)>, wild:
                 2 | 3 => { let a = idx(rng); let b2 = idx(rng); let (a, b2) = if a <= b2 || (wild && rng.chance(1, 4)) { (a, b2) } else { (b2, a) }; format!("bslice:{}:{}:{}", i, a, b2) }
                 4 => { let a = idx(rng); let e = if wild && rng.chance(1, 5) { usize::MAX } else { idx(rng) }; format!("bslicei:{}:{}:{}", i, a.min(e), e) }
                 5 => { if wild && rng.chance(1, 4) { format!("bsliceref:{}:x", i) } else { let o = rng.below(len as u64 + 1) as usize; let l = rng.below((len - o) as u64 + 1) as usize; format!("bsliceref:{}:{}:{}", i, o, l) } }
-                6 | 7 => format!("bsplitoff:{}:{}", i, idx(rng)), 8 | 9 => format!("bsplitto:{}:{}", i, idx(rng)),
+                6 | 7 => format!("bsplitoff:{}:{}", i, idx(rng)), 8 => format!("bsplitto:{}:{}", i, idx(rng)), 9 => format!("bctb:{}:{}", i, idx(rng)),
                 10 => format!("btrunc:{}:{}", i, idx(rng)), 11 => if rng.chance(1, 3) { format!("bclear:{}", i) } else { format!("badv:{}:{}", i, idx(rng)) },
                 12 => format!("buniq:{}", i), 13 => format!("btryinto:{}", i), 14 => format!("binto:{}", i), 15 => format!("bvec:{}", i),
                 16 | 17 => format!("bdrop:{}", i), _ => format!("badv:{}:{}", i, idx(rng)),
